@@ -493,6 +493,19 @@ func firstMatchRules(c *core.Ctx) {
 		elem := l.Elem(an)
 		ok := true
 		nFound := 0
+		// nothing is answered before the scan: a returning path that never reached the loop (a memo of an earlier
+		// answer, a shortcut for some arguments) answers without having looked at this listing
+		for _, p := range an.Segs[nil] {
+			if p.Exit != ir.ExitReturn {
+				continue
+			}
+			absent := name == "ForNameMaybe" && len(p.Results) >= 1 && !mentionsTerm(p.Results[0], fn.Params[0])
+			if l.Rotated() && absent {
+				continue // bottom-tested scan skipped for an empty listing: reports absence
+			}
+			ok = false
+			c.Fail("first-match", cname, lastPos(p), "the function answers %s without scanning the listing it was given", short(p.Results[0]))
+		}
 		for _, p := range an.Segs[h] {
 			// match condition on this path
 			match := 0
@@ -774,6 +787,11 @@ func namesOrderRule(c *core.Ctx) {
 				ok = false
 				c.Fail("names-order", "hseq.New", lastPos(p), "without names the full listing must be returned")
 			}
+		} else if p.Exit == ir.ExitReturn && len(p.Results) == 1 && ir.Same(p.Results[0], listing) {
+			// names were given (or it is not known that none were): the answer is the selection in the requested
+			// order, never the listing in declaration order
+			ok = false
+			c.Fail("names-order", "hseq.New", lastPos(p), "the full listing (declaration order) is returned on a path that has not established that no names were given: the requested order is lost")
 		}
 		// nseq[i] = ForName(seq, names[i]) - and nothing else is ever stored into the selection
 		nHere := 0
@@ -970,4 +988,15 @@ func pairingHseq(c *core.Ctx) {
 			}
 		}
 	}
+}
+
+// mentionsTerm: t contains parameter v.
+func mentionsTerm(t *ir.Term, v *ssa.Parameter) bool {
+	found := false
+	t.Walk(func(x *ir.Term) {
+		if x.Op == "param" && x.Src == ssa.Value(v) {
+			found = true
+		}
+	})
+	return found
 }
